@@ -21,6 +21,7 @@ Decides (on Doc::render_console, colourless and colour builds):
                    computed offset): `trim*` would also eat the blank line that ends the first paragraph.
  K doc writers    see C12 (payload and token lengths stay in step).
  S fence / counter  every test against the code-fence literal is a prefix test; buffer::Skip is a depth counter (usize), not a flag.
+ S splitter cuts   see C12.
 Does not decide: the numeric bound on line length (byte vs char counts)."""
 import re
 from core import *
